@@ -48,7 +48,7 @@ PROBES = [
     "subset_of_used_labels", "clones_of_laid_out_labels", "readonly_inspection",
     "standalone_distributor_reused", "labels_remeasured_between_computes", "option_written_directly",
     "caller_dropped_label_set", "engine_dropped_labels_kept", "caller_edits_dict_it_passed",
-    "label_list_emptied_in_place", "long_lived_process_run",
+    "label_list_emptied_in_place", "engine_kept_labels_after_list_emptied", "long_lived_process_run",
 ]
 
 RULE = {
@@ -275,19 +275,40 @@ def gen_plan(rng, tier):
     enabled = {k: rng.random() < 0.5 for k in ("abort", "stack", "stale", "badcfg")}
     if rng.random() < 0.25:
         enabled = {k: False for k in enabled}  # a fault-free configuration
+    mirror = None
+    if neng >= 2 and rng.random() < 0.05:
+        # wall mirror: engine 0 keeps its one label right of a lower bound, engine 1 keeps
+        # its one label left of an upper bound, and the numbers coincide (bound of the one =
+        # wanted position of the other, same width): two problems with equal positions and
+        # gaps in which only the ROLE of each value (wall or label) differs
+        w = rng.choice([30, 50, 96, 75.5])
+        m = rng.choice([60, 100, 12.5, -30])
+        p = m + rng.choice([5, 20, 40, 120])
+        sets = [[[p, w]], [[m, w]]] + sets[2:]
+        nsets = len(sets)
+        mirror = (m, p)
     ops = []
     have_engine = set()
     engine_set = {}
     nops = rng.randrange(6, 21) if tier == "quick" else rng.randrange(6, 31)
     e0 = 0
     eng_opts = {}
-    o0 = gen_opts(rng, sets[0])
+    o0 = gen_opts(rng, sets[0]) if mirror is None else {"minPos": mirror[0]}
     eng_opts[e0] = dict(FORCE_DEFAULTS, **o0)
     ops.append(["new_engine", e0, o0])
     ops.append(["set_labels", e0, 0, "fresh", 0])
     ops.append(["compute", e0])
     have_engine.add(e0)
     engine_set[e0] = 0
+    if mirror is not None:
+        o1 = {"minPos": None, "maxPos": mirror[1]}
+        eng_opts[1] = dict(FORCE_DEFAULTS, **o1)
+        ops.append(["new_engine", 1, o1])
+        ops.append(["set_labels", 1, 1, "fresh", 0])
+        ops.append(["compute", 1])
+        ops.append(["compute", e0])
+        have_engine.add(1)
+        engine_set[1] = 1
     while len(ops) < nops:
         r = rng.random()
         e = rng.randrange(neng)
@@ -636,16 +657,9 @@ def _observed_map(labels):
 
 
 def _count_lines(force, scope):
-    """Dry run on a deep copy: how many line events (within scope) does this
-    compute have?"""
-    clone = copy.deepcopy(force)
-    tr = seams.AbortTracer(-1, scope)
-    with tr:
-        try:
-            clone.compute()
-        except Exception:
-            pass
-    return tr.n
+    """Dry run in a forked copy of this process: how many line events (within
+    scope, and in all) does this compute have?"""
+    return seams.dry_count(force.compute, scope)
 
 
 def _stale_flags(labels, stats):
@@ -813,11 +827,18 @@ def _run(plan):
             if eng is None:
                 outcome = "skipped"
             else:
-                eng["force"].options[op[2]] = op[3]
-                eng["opts"][op[2]] = op[3]
-                eng["reconfigured"] = True
-                eng["clean"] = None
-                bump("probe:option_written_directly")
+                try:
+                    eng["force"].options[op[2]] = op[3]
+                except TypeError:
+                    # an engine whose options mapping is read-only refuses the write
+                    # loudly: its options are what they were
+                    outcome = "refused"
+                    bump("probe:option_write_refused")
+                else:
+                    eng["opts"][op[2]] = op[3]
+                    eng["reconfigured"] = True
+                    eng["clean"] = None
+                    bump("probe:option_written_directly")
         elif kind == "bad_config":
             eng = engines.get(op[1])
             if eng is None:
@@ -915,12 +936,30 @@ def _run(plan):
                 eng["clean"] = None
                 if not emptied_in_place:
                     eng["force"].nodes(lst)
-                eng["label_ids"] = {id(n) for n in lst}
-                eng["set"] = s
-                eng["sets_seen"].add(s)
-                eng["labels"] = list(lst)
-                eng["spec"] = spec
-                outcome = mode_eff
+                held = None
+                if not lst:
+                    # An empty list cannot be handed over (nodes([]) is only a getter), so
+                    # what the engine holds after its caller emptied the list is decided by
+                    # whether the engine kept the caller's list object (this tree: no labels
+                    # any more) or a copy of it (still the labels it was given): both are
+                    # legitimate, the model follows what the engine itself reports
+                    held = list(eng["force"].nodes() or [])
+                if held and eng.get("labels") and {id(n) for n in held} == eng.get("label_ids"):
+                    bump("probe:engine_kept_labels_after_list_emptied")
+                    outcome = mode_eff + ":engine_keeps_its_copy"
+                elif held:
+                    bump("probe:engine_kept_labels_after_list_emptied")
+                    eng["label_ids"] = {id(n) for n in held}
+                    eng["labels"] = held
+                    eng["spec"] = [[n.idealPos, n.width] for n in held]
+                    outcome = mode_eff + ":engine_reports_other_labels"
+                else:
+                    eng["label_ids"] = {id(n) for n in lst}
+                    eng["set"] = s
+                    eng["sets_seen"].add(s)
+                    eng["labels"] = list(lst)
+                    eng["spec"] = spec
+                    outcome = mode_eff
         elif kind in ("compute", "abort_compute", "stack_compute"):
             e = op[1]
             eng = engines.get(e)
@@ -969,10 +1008,10 @@ def _run(plan):
                 elif kind == "abort_compute":
                     bump("fault:abort:configured")
                     scope = op[3] if len(op) > 3 else "any"
-                    total = _count_lines(f, scope)
+                    total, total_any = _count_lines(f, scope)
                     if total == 0:
                         scope = "any"
-                        total = _count_lines(f, scope)
+                        total = total_any
                     k = 1 + (total * op[2]) // 1000000
                     exc_name = op[4] if len(op) > 4 else "SimAbort"
                     exc = {"SimAbort": seams.SimAbort, "MemoryError": MemoryError,
@@ -1314,14 +1353,14 @@ def execute(plan):
     algs = sorted({(o[2].get("algorithm") or "default") for o in plan["ops"] if o[0] in ("new_engine", "config")})
     sets = {
         "interleavings(op-kind/engine/set sequences)": [h64([(o[0], o[1], o[2] if o[0] == "set_labels" else None) for o in plan["ops"]])],
-        "layer_shape_signatures": [h64([cp["observed"].get(k) for k in sorted(cp["observed"])][:40]) for cp in res["checkpoints"]][:8],
+        "layer_shape_signatures": [h64([cp["observed"].get(k) for k in sorted(cp["observed"])][:40]) for cp in res["checkpoints"] if "observed" in cp][:8],
         "label_count_x_algorithm": [h64([len(s) for s in plan["sets"]] + algs)],
     }
     return {
         "violations": violations,
         "counters": counters,
         "sets": sets,
-        "digest": digest([res["log"], [[cp["step"], cp["observed"]] for cp in res["checkpoints"]],
+        "digest": digest([res["log"], [[cp["step"], cp.get("observed", "quiescence")] for cp in res["checkpoints"]],
                           [[v["class"], v["step"]] for v in res["c04"]]]),
         "nontrivial": nontrivial and judged > 0,
     }
